@@ -136,7 +136,9 @@ func encode(n ipld.Node, codec uint64) ([]byte, error) {
 	return buf.Bytes(), err
 }
 
-func cidFor(codec uint64) cid.Cid { return cid.NewCidV1(codec, fixture.Mh("x", multihash.SHA2_256, -1)) }
+func cidFor(codec uint64) cid.Cid {
+	return cid.NewCidV1(codec, fixture.Mh("x", multihash.SHA2_256, -1))
+}
 
 var codecs = []uint64{uint64(multicodec.DagJson), uint64(multicodec.DagCbor)}
 
@@ -370,6 +372,91 @@ func TestCheck(t *testing.T) {
 			}
 			if err != nil || err2 != nil || chunkCanon(gc) != want || chunkCanon(tc) != want {
 				r.Violation("chunk:generic-vs-typed-differs", key, fmt.Sprint(err, err2), nil)
+			}
+		}
+	}
+
+	// ---- every value of the final byte(s) of an encoded block ----
+	// The last bytes of a DAG-CBOR block are payload bytes (the last multihash
+	// of a chunk, a signature, a context ID ...): every byte value must survive
+	// there, including the ones a text decoder would treat as padding.
+	for v := 0; v < 256; v++ {
+		key := fmt.Sprintf("final-byte|%d", v)
+		if !r.Mine(key) {
+			continue
+		}
+		tail := func(n int, seed byte) []byte {
+			b := fixture.Bytes(n, seed)
+			b[n-1] = byte(v)
+			return b
+		}
+		mhv, err := multihash.Encode(tail(32, 0x51), multihash.SHA2_256)
+		if err != nil {
+			panic(err)
+		}
+		chunks := []schema.EntryChunk{
+			{Entries: []multihash.Multihash{mhAlpha[0], mhv}},
+			{Entries: []multihash.Multihash{mhv}},
+			{Entries: []multihash.Multihash{mhv, mhv}, Next: lnk("next")},
+		}
+		for ci, ch := range chunks {
+			want := chunkCanon(&ch)
+			node, err := ch.ToNode()
+			if err != nil {
+				r.Violation("chunk:ToNode", key, err.Error(), nil)
+				continue
+			}
+			for _, codec := range codecs {
+				r.Eval(fmt.Sprintf("%s|chunk%d|codec=%x", key, ci, codec), true)
+				data, err := encode(node, codec)
+				if err != nil {
+					r.Violation("chunk:encode-error", key, err.Error(), nil)
+					continue
+				}
+				var back schema.EntryChunk
+				if pn, m := vp.Guard(func() { back, err = schema.BytesToEntryChunk(cidFor(codec), data) }); pn {
+					r.Violation("chunk:decode-panic", key, firstLine(m), nil)
+				} else if err != nil {
+					r.Violation(fmt.Sprintf("chunk:decode-error:final-byte:codec=%x", codec), key, fmt.Sprintf("a chunk whose last multihash ends in 0x%02x (block ends in 0x%02x) does not decode: %v", v, data[len(data)-1], err), nil)
+				} else if got := chunkCanon(&back); got != want {
+					r.Violation(fmt.Sprintf("chunk:roundtrip-differs:codec=%x", codec), key, fmt.Sprintf("got %s want %s", got, want), nil)
+				}
+			}
+		}
+		for si, sh := range []adShape{{sig: true, ctxLen: 1, mdLen: 1}, {prev: true, entries: 2, nAddrs: 1, ctxLen: 1, mdLen: 1, sig: true, ep: 3, ovr: true}, {isRm: true, sig: true, ctxLen: 1}} {
+			ad := buildAd(sh)
+			ad.Signature = tail(40, 0x61)
+			ad.ContextID = tail(3, 0x62)
+			if sh.mdLen > 0 {
+				ad.Metadata = tail(4, 0x63)
+			}
+			if ad.ExtendedProvider != nil {
+				for i := range ad.ExtendedProvider.Providers {
+					ad.ExtendedProvider.Providers[i].Signature = tail(40, 0x64)
+					ad.ExtendedProvider.Providers[i].Metadata = tail(2, 0x65)
+				}
+			}
+			want := adCanon(&ad)
+			node, err := ad.ToNode()
+			if err != nil {
+				r.Violation("ad:ToNode", key, err.Error(), nil)
+				continue
+			}
+			for _, codec := range codecs {
+				r.Eval(fmt.Sprintf("%s|ad%d|codec=%x", key, si, codec), true)
+				data, err := encode(node, codec)
+				if err != nil {
+					r.Violation("ad:encode-error", key, err.Error(), nil)
+					continue
+				}
+				var back schema.Advertisement
+				if pn, m := vp.Guard(func() { back, err = schema.BytesToAdvertisement(cidFor(codec), data) }); pn {
+					r.Violation("ad:decode-panic", key, firstLine(m), nil)
+				} else if err != nil {
+					r.Violation(fmt.Sprintf("ad:decode-error:final-byte:codec=%x", codec), key, fmt.Sprintf("an advertisement whose byte fields end in 0x%02x (block ends in 0x%02x) does not decode: %v", v, data[len(data)-1], err), nil)
+				} else if got := adCanon(&back); got != want {
+					r.Violation(fmt.Sprintf("ad:roundtrip-differs:codec=%x", codec), key, fmt.Sprintf("got %s want %s", got, want), nil)
+				}
 			}
 		}
 	}
